@@ -24,6 +24,7 @@ from .sym import (
     SV,
     Ctx,
     OutOfReach,
+    PathCut,
     PyRaise,
     bool_not,
     is_concrete_num,
@@ -38,6 +39,7 @@ from . import tensor as tz
 from .tensor import Opaque, Shape, SymTensor
 
 REPO = os.environ.get("VERIF_REPO", "/repo")
+SYMBOLIC_UNROLL = 6  # iterations of a while loop whose test is symbolic, per path
 
 _BINOPS = {
     ast.Add: "+",
@@ -535,6 +537,8 @@ class Interp:
         it = self.eval(s.iter, env)
         gen = getattr(it, "pyvc_generic_loop", None)
         lazy = getattr(it, "pyvc_lazy_iter", None)
+        if gen is not None:
+            self._havoc_loop_carried(s, env)
         items = gen(self, env) if gen is not None else lazy(self) if lazy is not None else self.iterate(it)
         broke = False
         for item in items:
@@ -549,9 +553,40 @@ class Interp:
         if not broke and s.orelse:
             self.exec_block(s.orelse, env)
 
+    def _havoc_loop_carried(self, s: ast.For, env: Env) -> None:
+        """Generic (invariant-style) loop: the body runs once for an ARBITRARY iteration, so every
+        local the body assigns and that is live at loop entry holds an arbitrary value of its
+        kind (scalars only; containers are the business of the invariant supplied by on_enter)."""
+        assigned: List[str] = []
+        for st in s.body:
+            for n in ast.walk(st):
+                if isinstance(n, ast.Name) and isinstance(n.ctx, ast.Store) and n.id not in assigned:
+                    assigned.append(n.id)
+        target_names = {n.id for n in ast.walk(s.target) if isinstance(n, ast.Name)}
+        for name in assigned:
+            if name in target_names or name not in env.vars:
+                continue
+            v = env.vars[name]
+            if isinstance(v, (bool, SB)):
+                env.vars[name] = self.ctx.fresh_bool(f"carried!{name}")
+            elif isinstance(v, int) or (isinstance(v, SV) and v.kind == "int"):
+                env.vars[name] = self.ctx.fresh_int(f"carried!{name}")
+            elif isinstance(v, (Fraction, float, SV)):
+                env.vars[name] = self.ctx.fresh_real(f"carried!{name}")
+            else:
+                continue
+            self.ctx.notes.append(f"loop-carried local `{name}` replaced by an arbitrary value for the generic iteration")
+
     def x_While(self, s: ast.While, env: Env) -> None:
-        n = 0
-        while self.truth(self.eval(s.test, env)):
+        n = sym = 0
+        while True:
+            t = self.eval(s.test, env)
+            if isinstance(t, (SB, SV)):
+                sym += 1
+                if sym > SYMBOLIC_UNROLL:
+                    raise PathCut(f"while loop at line {s.lineno} with a symbolic bound unrolled {SYMBOLIC_UNROLL} times (needs an invariant)")
+            if not self.truth(t):
+                break
             n += 1
             if n > 10000:
                 raise OutOfReach("while loop did not terminate concretely")
@@ -927,6 +962,11 @@ class Interp:
             r = self.contains(b, a)
             return r if isinstance(op, ast.In) else bool_not(r)
         o = _CMPOPS[type(op)]
+        if (isinstance(a, SymTensor) or isinstance(b, SymTensor)) and all(isinstance(x, (SymTensor, int, Fraction, float, SV)) and not isinstance(x, bool) for x in (a, b)):
+            # elementwise comparison of tensors: an UNMODELLED torch operation (generic fallback)
+            from .torchmodel import GenericTorch
+
+            return GenericTorch("Tensor.__compare__[" + o + "]").pyvc_call(self, [a, b], {})
         if o in ("==", "!="):
             r = self.equals(a, b)
             return r if o == "==" else bool_not(r)
@@ -1385,11 +1425,17 @@ class PathResult:
         self.extra = extra
 
 
+class PathList(list):  # type: ignore[type-arg]
+    def __init__(self) -> None:
+        super().__init__()
+        self.cuts: List[str] = []
+
+
 def explore(run: Callable[[Ctx], Tuple[Interp, Callable[[], Any]]], max_paths: int = 256, branch_timeout_ms: int = 2000) -> List[PathResult]:
     """run(ctx) builds the symbolic inputs (assuming preconditions) and returns
     (interp, thunk); thunk() executes the function under verification."""
     work: List[Tuple[bool, ...]] = [()]
-    results: List[PathResult] = []
+    results = PathList()
     while work:
         dec = work.pop()
         ctx = Ctx(dec, branch_timeout_ms)
@@ -1399,6 +1445,12 @@ def explore(run: Callable[[Ctx], Tuple[Interp, Callable[[], Any]]], max_paths: i
             res = PathResult(ctx, interp, "return", value=v)
         except PyRaise as e:
             res = PathResult(ctx, interp, "raise", exc=e)
+        except PathCut as e:
+            results.cuts.append(str(e))
+            work.extend(ctx.alternatives)
+            if len(results.cuts) > max_paths:
+                raise OutOfReach(f"more than {max_paths} abandoned paths")
+            continue
         results.append(res)
         work.extend(ctx.alternatives)
         if len(results) > max_paths:
